@@ -197,13 +197,14 @@ def cases():
                     els[i] = ('item', els[i][1], q + 'no end', S('no end', 1))
                     add('missing endquote', '%s %s %s' % (hn, q, where), doc, 106, els[i], content(doc), next_el=following(doc, els, i) if i + 1 < len(els) else None)
             # OVERLENGTH_LINE in several lexical contexts (2049 characters; 2048 must pass silently)
-            for ctx in ('bare', 'quoted', 'comment', 'blanks', 'supplementary'):
+            for ctx in ('bare', 'quoted', 'comment', 'blanks', 'supplementary', 'text-first', 'text-middle', 'text-last', 'triple-middle', 'triple-last'):
                 for n, code in ((2048, None), (2049, 108)):
                     doc = copy.deepcopy(doc0)
                     els, i, where = top_positions(doc)[pos_idx]
                     if els[i][0] != 'item' or not where.startswith('block'):
                         continue
                     name = els[i][1]
+                    off = 0
                     if ctx == 'bare':
                         v = 'v' * (n - len(name) - 1)
                         els[i] = ('item', name, v, S(v))
@@ -213,6 +214,26 @@ def cases():
                     elif ctx == 'supplementary':
                         v = '\U0001F600' + 'v' * (n - len(name) - 4)
                         els[i] = ('item', name, "'" + v + "'", S(v, 1))
+                    elif ctx == 'text-first':
+                        v = 'v' * (n - 1) + '\nsecond'
+                        els[i] = ('item', name, '\n;' + v + '\n;', S(v, 1))
+                        off = 1
+                    elif ctx == 'text-middle':
+                        v = 'first\n' + 'v' * n + '\nlast'
+                        els[i] = ('item', name, '\n;' + v + '\n;', S(v, 1))
+                        off = 2
+                    elif ctx == 'text-last':
+                        v = 'first\n' + 'v' * n
+                        els[i] = ('item', name, '\n;' + v + '\n;', S(v, 1))
+                        off = 2
+                    elif ctx == 'triple-middle':
+                        v = 'a\n' + 'v' * n + '\nb'
+                        els[i] = ('item', name, "'''" + v + "'''", S(v, 1))
+                        off = 1
+                    elif ctx == 'triple-last':
+                        v = 'a\n' + 'v' * (n - 3)
+                        els[i] = ('item', name, "'''" + v + "'''", S(v, 1))
+                        off = 1
                     elif ctx == 'comment':
                         els[i] = ('item', name, els[i][2] + ' #' + 'c' * (n - len(name) - len(els[i][2]) - 3), els[i][3])
                     else:
@@ -220,7 +241,7 @@ def cases():
                     text, marks = render(doc)
                     assert max(len(l) for l in text.split('\n')) == n, (ctx, n, max(len(l) for l in text.split('\n')))
                     add('overlength line' if code else 'line of 2048', '%s %s %s' % (hn, ctx, where), doc, code, els[i], content(doc),
-                        window=(marks[id(els[i])][0], marks[id(els[i])][0] + 1))
+                        window=(marks[id(els[i])][0] + off, marks[id(els[i])][0] + off + 1))
         # --- loops ---
         for b in host:
             for el in b[2]:
@@ -456,7 +477,7 @@ def main():
                           {'class': cls, 'case': label, 'document': text[:3000] if len(text) < 3000 else text[:1200] + ' ...', 'message': msg})
     return rep.finish({'evaluations': total, 'distinct_nontrivial': len(cs) - len(hosts()),
                        'rule': 'defect classes of the recovery table planted at the first / middle / last element of the first block and of its first save frame, inside loops, lists and tables, and at end of input, in %d host documents; '
-                               'per case: first callback code, line window [defect line, line of the following token], return code, and the dump after the documented recovery; line-length boundary 2048 / 2049 characters in 5 lexical contexts' % len(hosts()),
+                               'per case: first callback code, line window [defect line, line of the following token], return code, and the dump after the documented recovery; line-length boundary 2048 / 2049 characters in 10 lexical contexts (bare, quoted, comment, blanks, supplementary characters, first / middle / last line of a text field, middle / last line of a triple-quoted string)' % len(hosts()),
                        'samples': [cs[0][2][:200], cs[len(cs) // 2][2][:200]], 'classes': classes, 'exhaustive': True},
                       ['classes that cannot be planted without triggering another documented error first (invalid block / frame code, wrong encoding, missing prefix, invalid bare value) are not planted here',
                        'where the table does not determine the content (disallowed character replacement, null key, how much an unclosed text field swallows) only code and line are checked'])
